@@ -43,13 +43,16 @@ type Case struct {
 	Extras      int  // bit 0: node member, bit 1: relation member, bit 2: way member with another role
 	NodeShuffle int  // rotation applied to the node list
 	RelTagged   bool // relation carries a tag besides type
+	Tiny        bool // grid family scaled to the 1e-7 coordinate step, far from the origin
 }
 
 func shoelace(pts []P) float64 {
-	a := 0.0
+	// relative to the first vertex: differences of nearby doubles are exact,
+	// so the sign is right for rings of a few 1e-7 steps anywhere on the globe.
+	a, o := 0.0, pts[0]
 	for i := range pts {
 		p, q := pts[i], pts[(i+1)%len(pts)]
-		a += p[0]*q[1] - q[0]*p[1]
+		a += (p[0]-o[0])*(q[1]-o[1]) - (q[0]-o[0])*(p[1]-o[1])
 	}
 	return a / 2
 }
@@ -104,8 +107,11 @@ func (c *Case) pieces() []piece {
 	return out
 }
 
-// build creates the OSM data; annotatedWays controls where coordinates live.
-func (c *Case) build(annotatedWays bool) (*osm.OSM, *osm.Relation, map[int64]orb.Orientation, map[osm.FeatureID]bool) {
+// build creates the OSM data; mode controls where coordinates live: 0 node
+// objects only, 1 annotated way nodes only, 2 mixed per way node (node objects
+// for every vertex, every other way node additionally annotated; which parity
+// is annotated follows NodeShuffle, so a way's first node is either kind).
+func (c *Case) build(mode int) (*osm.OSM, *osm.Relation, map[int64]orb.Orientation, map[osm.FeatureID]bool) {
 	o := &osm.OSM{}
 	rel := &osm.Relation{ID: 1, Version: 1, Visible: true, Timestamp: time.Date(2015, 1, 1, 0, 0, 0, 0, time.UTC), Tags: osm.Tags{{Key: "type", Value: c.RelType}}}
 	if c.RelTagged {
@@ -121,13 +127,14 @@ func (c *Case) build(annotatedWays bool) (*osm.OSM, *osm.Relation, map[int64]orb
 	}
 	var members osm.Members
 	wid := osm.WayID(1)
+	annotatedWays := mode == 1
 	for _, pc := range c.pieces() {
 		r := c.Rings[pc.ring]
 		w := &osm.Way{ID: wid, Version: 1, Visible: true, Timestamp: rel.Timestamp.Add(-time.Hour)}
 		wid++
 		for _, i := range pc.idx {
 			wn := osm.WayNode{ID: base[pc.ring] + osm.NodeID(i)}
-			if annotatedWays {
+			if annotatedWays || (mode == 2 && (len(w.Nodes)+c.NodeShuffle/2)%2 == 0) {
 				wn.Lon, wn.Lat, wn.Version = r.Pts[i][0], r.Pts[i][1], 1
 			}
 			w.Nodes = append(w.Nodes, wn)
@@ -311,7 +318,7 @@ func check(c Case) error {
 	// orientation annotations by the library (also checks their values)
 	var annotated osm.Members
 	{
-		o, rel, wantOrient, _ := c.build(true)
+		o, rel, wantOrient, _ := c.build(1)
 		ds := &osm.HistoryDatasource{Ways: map[osm.WayID]osm.Ways{}}
 		for _, w := range o.Ways {
 			ds.Ways[w.ID] = osm.Ways{w}
@@ -332,9 +339,9 @@ func check(c Case) error {
 		}
 		annotated = rel.Members
 	}
-	for _, annotatedWays := range []bool{false, true} {
+	for mode := 0; mode < 3; mode++ {
 		for orient := 0; orient < 3; orient++ {
-			o, rel, wantOrient, unrelated := c.build(annotatedWays)
+			o, rel, wantOrient, unrelated := c.build(mode)
 			switch orient {
 			case 1:
 				for i := range rel.Members {
@@ -347,7 +354,7 @@ func check(c Case) error {
 					}
 				}
 			}
-			label := fmt.Sprintf("coords-on-way-nodes=%v orientation-mode=%d", annotatedWays, orient)
+			label := fmt.Sprintf("coords-source=%s orientation-mode=%d", [...]string{"node-objects", "way-nodes", "mixed-per-node"}[mode], orient)
 			if err := convertAndCompare(&c, o, unrelated, label); err != nil {
 				return err
 			}
@@ -385,6 +392,9 @@ func classify(c Case) (bool, []string) {
 	}
 	if c.Extras != 0 {
 		cl = append(cl, "unrelated-members")
+	}
+	if c.Tiny {
+		cl = append(cl, "tiny-rings-on-1e-7-grid")
 	}
 	return nt, cl
 }
@@ -447,7 +457,9 @@ func genCuts(t *rapid.T, r *Ring) {
 func genCase(t *rapid.T) Case {
 	c := Case{RelType: rapid.SampledFrom([]string{"multipolygon", "multipolygon", "boundary"}).Draw(t, "type")}
 	nout := rapid.IntRange(1, 4).Draw(t, "nout")
-	grid := rapid.IntRange(0, 2).Draw(t, "grid") == 0
+	family := rapid.IntRange(0, 3).Draw(t, "family")
+	grid := family <= 1
+	c.Tiny = family == 1
 	for p := 0; p < nout; p++ {
 		if grid {
 			x0, y0 := 10+p*40, 10+rapid.IntRange(0, 3).Draw(t, "yoff")
@@ -494,13 +506,23 @@ func genCase(t *rapid.T) Case {
 	c.Extras = rapid.IntRange(0, 7).Draw(t, "extras")
 	c.NodeShuffle = rapid.IntRange(0, 50).Draw(t, "nodeShuffle")
 	c.RelTagged = rapid.Bool().Draw(t, "relTagged")
+	if c.Tiny {
+		// the same integer-grid shapes in units of the 1e-7 OSM coordinate
+		// step, placed at real-world locations far from lon=0/lat=0.
+		off := rapid.SampledFrom([][2]int64{{-1224000000, 377000000}, {134000000, 525000000}, {1799000000, 850000000}, {-700000000, -330000000}, {1000, 1000}}).Draw(t, "offset")
+		for ri := range c.Rings {
+			for i, p := range c.Rings[ri].Pts {
+				c.Rings[ri].Pts[i] = P{float64(off[0]+int64(p[0])) / 1e7, float64(off[1]+int64(p[1])) / 1e7}
+			}
+		}
+	}
 	return c
 }
 
 func TestMultipolygon(t *testing.T) {
 	harness.Run(t, harness.Spec[Case]{
 		Name: "multipolygon", N: 5000,
-		Rule:     "ground truth: 1..4 disjoint simple outer rings (radially jittered polygons on a 1e-5 grid, or - one case in three - rectangles on integer coordinates with extra edge vertices so that hole vertices share latitudes with outer vertices) with 0..3 disjoint holes strictly inside each; every ring cut at an arbitrary vertex subset, pieces independently reversed, members permuted, unrelated node/relation/other-role way members interleaved, node list rotated/reversed; type multipolygon or boundary; each case is converted in all 6 combinations of {coordinates from node objects, from annotated way nodes} x {no orientation annotations, annotations produced by annotate.Relations, ground-truth annotations}; oracle = exactly one polygon feature whose polygons equal the ground truth as a set of (outer, set of holes) with rings compared as canonical cyclic sequences, closed rings, CCW outers / CW inners by shoelace, and Member.Orientation after annotate.Relations == direction of the piece; non-trivial = some ring cut into >=2 pieces with a reversed piece",
+		Rule:     "ground truth: 1..4 disjoint simple outer rings (radially jittered polygons on a 1e-5 grid, or - one case in four each - rectangles on integer coordinates with extra edge vertices so that hole vertices share latitudes with outer vertices, and the same shapes in units of the 1e-7 degree coordinate step placed at San Francisco / Berlin / (179.9,85) / (-70,-33) / next to the origin, so that holes are 1-3 steps across and neighbouring vertices one step apart) with 0..3 disjoint holes strictly inside each; every ring cut at an arbitrary vertex subset, pieces independently reversed, members permuted, unrelated node/relation/other-role way members interleaved, node list rotated/reversed; type multipolygon or boundary; each case is converted in all 9 combinations of {coordinates from node objects, from annotated way nodes, mixed per way node with node objects present} x {no orientation annotations, annotations produced by annotate.Relations, ground-truth annotations}; oracle = exactly one polygon feature whose polygons equal the ground truth as a set of (outer, set of holes) with rings compared as canonical cyclic sequences, closed rings, CCW outers / CW inners by shoelace, and Member.Orientation after annotate.Relations == direction of the piece; non-trivial = some ring cut into >=2 pieces with a reversed piece",
 		Gen:      genCase,
 		Check:    check,
 		Classify: classify,
